@@ -53,11 +53,12 @@ try:
             src = os.path.join(root, fn)
             rel = os.path.relpath(src, os.path.join(deliv, 'demo'))
             target = None
-            for u in untracked:
-                if os.path.basename(u) == fn:
-                    target = u
-            if target is None and os.path.dirname(rel) and os.path.isdir(os.path.join(scratch, os.path.dirname(rel))):
+            if os.path.dirname(rel) and os.path.isdir(os.path.join(scratch, os.path.dirname(rel))):
                 target = rel
+            if target is None:
+                for u in untracked:
+                    if os.path.basename(u) == fn:
+                        target = u
             if target is None:
                 pkg = re.search(r'^package (\w+)', open(src).read(), re.M).group(1)
                 for d in re.findall(r'((?:[\w.-]+/)+[\w.-]+|(?:[\w.-]+/)+)', readme):
